@@ -182,3 +182,50 @@ def run(prog, rep, tier='quick', config='default'):
         else:
             rep.violation('R15d', 'both-window-scans-apply-splits', fn=scan.name, where='%s:%d' % (scan.file, scan.line),
                           detail='only %d of the two window scans (after / before the sale) adjust share counts for a split inside the window' % n_ok)
+
+    # ------------------------------------------------------------------ R15e: a split in the window belongs to the affiliate of the split row
+    # every write into a per-affiliate split-adjustment map is keyed by the affiliate of the transaction being *scanned* (the loop's
+    # element), never by a fixed affiliate such as the seller's: otherwise all splits of the window compound on one affiliate
+    SPLITMAP = re.compile(r'HashMap<&(\'\w+ )?(portfolio::model::affiliate::)?Affiliate, util::decimal::ConstrainedDecimal')
+
+    def element_keyed(g, c, operand, depth=0):
+        o = mir.provenance(g, operand, follow_all_call_args=True)
+        loops_here = [body for (h, body) in g.loops if c.bb in body]
+        if any(x.short == 'next' and x.decl.endswith('Iterator::next') and any(x.bb in body for body in loops_here) for x in o.calls):
+            return True, None
+        ps = sorted(o.params - ({1} if g.kind in ('Closure', 'SyntheticCoroutineBody') else set()))
+        if ps and depth < 2:
+            sites = [x for x in prog.callers.get(g.name, []) if not mir.is_testsupport(x.fn.name) and not x.inlined]
+            if not sites:
+                return False, (g, c)
+            for x in sites:
+                for p_ in ps:
+                    if p_ - 1 >= len(x.args):
+                        return False, (x.fn, x)
+                    ok, where = element_keyed(x.fn, x, x.args[p_ - 1], depth + 1)
+                    if ok:
+                        break
+                else:
+                    return False, (x.fn, x)
+            return True, None
+        return False, (g, c)
+    n_w = 0
+    for g in prog.product_fns():
+        if not g.name.startswith('portfolio::bookkeeping::') or mir.is_testsupport(g.name):
+            continue
+        for c in g.calls:
+            if c.inlined or c.short not in ('insert', 'entry') or len(c.args) < 2 or not SPLITMAP.search(g.ty.get(c.arg_local(0), '') or ''):
+                continue
+            n_w += 1
+            ok, where = element_keyed(g, c, c.args[1])
+            k = '%s|split-adjustment-keyed-by-the-scanned-row#%d' % (g.name, n_w)
+            if ok:
+                rep.ok('R15e', k, where=c.where(), fn=g.name, detail='the key is the affiliate of the transaction the window scan is looking at')
+            else:
+                wf, wc = where
+                rep.violation('R15e', k, where=wc.where(), fn=wf.name,
+                              detail='a split found in the 30-day window is recorded under an affiliate that is not the split row\'s own (the key does not '
+                                     'come from the scanned transaction): with several affiliates every split of the window compounds on one of them, and '
+                                     'the shares acquired in the window are mis-counted')
+    if n_w < 1:
+        rep.violation('R15e', 'anchor-lost:split-adjustment-writes', detail='anchor lost: only %d writes into a per-affiliate split-adjustment map found' % n_w)
